@@ -207,7 +207,8 @@ class Emitter:
         if k == "tdyn": return self.lean_type(ty["t"])
         if k == "tpath":
             name, args = ty["segs"][-1]
-            tm = self.c.spec.get("types", {})
+            tm = dict(self.c.spec.get("types", {}))
+            tm.update(self.c.module_opt(getattr(self, "key", None), "types_override") or {})
             if name in INT_TYPES: return "Nat" if name[0] == "u" else "Int"
             if name == "bool": return "Bool"
             if name in ("str", "String"): return "String"
@@ -1041,6 +1042,17 @@ class Emitter:
                 lines += self.stmt(st)
             inner = dict(s); inner["init"] = blk["tail"]
             return lines + self.stmt_let(inner)
+        init0 = s["init"]
+        if s["ty"] is not None and init0["k"] == "mcall" and init0["name"] in ("expect", "unwrap") and init0["recv"]["k"] == "mcall" \
+                and init0["recv"]["name"] == "try_into":
+            # `let x: &[u8; N] = slice.try_into().expect(..)`: Err unless the slice has exactly N elements
+            aty = self.strip_ref(s["ty"])
+            if aty is not None and aty["k"] == "tarray":
+                p0, src = self.val(init0["recv"]["recv"])
+                p1, nlen = self.val(aty["n"])
+                t = f"(← Rs.unwrapR (Rs.tryIntoArray {self.atom(src)} {self.atom(nlen)}) {self.site(init0['line'], init0['name'])})"
+                self.declare(pat["name"], mut=pat["mut"], ty=s["ty"])
+                return p0 + p1 + [f"{'let mut' if pat['mut'] else 'let'} {lname(pat['name'])} : Bytes := {t}"]
         pre, t = self.val(s["init"])
         ty = s["ty"] if s["ty"] is not None else self.typeof(s["init"])
         if pat["k"] == "pident":
@@ -1242,19 +1254,25 @@ class Emitter:
             pre, c = self.comp_with_writeback(scrut)
             lines = list(pre)
             lines.append(f"match {c} with")
-            have_panic = False
+            seen_err, seen_ok_all = False, False
             for a in arms:
                 self.push_scope()
                 p = self.pat(a["pat"])
                 if a["guard"] is not None: raise Unsupported("guard on Result match")
                 if p == "_":
-                    # wildcard must not swallow panics
+                    # wildcard must not swallow panics; only the alternatives not yet covered
                     body = self.arm_body(a["body"], mode)
-                    lines.append("| Res.ok _ =>"); lines += indent(body, 2)
-                    lines.append("| Res.err =>"); lines += indent(body, 2)
+                    if not seen_ok_all:
+                        lines.append("| Res.ok _ =>"); lines += indent(body, 2)
+                    if not seen_err:
+                        lines.append("| Res.err =>"); lines += indent(body, 2)
+                    seen_err = seen_ok_all = True
                 else:
                     if p == "Res.err":
-                        pass
+                        if seen_err:
+                            self.pop_scope(); continue
+                        seen_err = True
+                    if re.fullmatch(r"Res\.ok (_|[a-z_][A-Za-z0-9_']*)", p): seen_ok_all = True
                     lines.append(f"| {p} =>")
                     lines += indent(self.arm_body(a["body"], mode), 2)
                 self.pop_scope()
@@ -1652,7 +1670,7 @@ class Emitter:
             params.append(f"({n} : {t})")
         name = self.c.lean_fn_name(self.key)
         head = f"def {name} " + " ".join(params) + f" : Res {rty} := do"
-        src = f"/-- `{self.key}` — {self.file}:{f['line']} -/"
+        src = f"/-- `{self.key}` — {self.file} -/"
         return [src, head] + indent(body, 2)
 
 
@@ -1779,6 +1797,7 @@ MUT_BUILTINS = {
     "read_u16": {"bind": "Rs.Cursor.readU16 {self}", "new": "{t}.2", "res": "{t}.1", "result": True},
     "read_u64": {"bind": "Rs.Cursor.readU64 {self}", "new": "{t}.2", "res": "{t}.1", "result": True},
     "set_position": {"new": "(Rs.Cursor.setPosition {self} {0})"},
+    "reserve": {"new": "{self}"},
     "update": {"new": "({self} ++ {0})"},
     "read_exact": {"special": _read_exact, "result": True, "inspect": _read_exact_inspect},
     "read_to_end": {"special": _read_to_end, "result": True},
